@@ -46,6 +46,16 @@ extern "C" void harness() {
     for (unsigned i = 0; i < NM; ++i) for (unsigned j = (UND ? i : 0); j < NM; ++j) if (i < n && j < n && in[i] && in[j]) induced += C[i][j];
     if (sz == 0) REACH("empty subset"); if (sz == n && n) REACH("full subset"); if (sz && sz < n) REACH("proper subset");
     unsigned i = n ? nd(n) : 0, j = n ? nd(n) : 0;
+#ifdef PRE_REJECT
+    // an earlier request that was rejected (a valid vertex met before an out-of-range one) must not influence later requests
+    if (n) {
+        std::unordered_set<VertexIndex> bad; bad.insert(nd(n)); bad.insert(n + nd(2));
+        bool threw = false;
+        try { if (ndb()) (void)algorithms::getSubgraph(g, bad); else (void)algorithms::getSubgraphWithRemap(g, bad); } catch (std::out_of_range &) { threw = true; }
+        CHECK(threw, "a vertex subset with an out-of-range member is rejected with std::out_of_range");
+        REACH("a rejected request preceded this one");
+    }
+#endif
 #if Q == 0
     G sub = algorithms::getSubgraph(g, S);
     CHECK(sub.getSize() == n, "getSubgraph keeps the vertex count of the original");
